@@ -165,7 +165,9 @@ def load_findings(pid):
         return []
     with open(p) as f:
         data = json.load(f)
-    return [e for e in data.get("findings", []) if e.get("property") == pid and not str(e.get("status", "")).startswith("fixed")]
+    skip = set(filter(None, os.environ.get("VERIF_TRIAGE_UNLIST", "").split(",")))   # triage aid only: show listed findings as violations
+    return [e for e in data.get("findings", []) if e.get("property") == pid and not str(e.get("status", "")).startswith("fixed")
+            and e.get("id") not in skip]
 
 
 def load_set(name):
